@@ -12,9 +12,15 @@ def rc_job(binary, flavour, gen, tier, success, size, shards=8, unit=1):
     mult = 10 if tier == 'thorough' else 1
     return Job(binary, flavour, ['--rc', gen], shards=shards, timeout=5400, rc=(success * mult, size), label='rapidcheck ' + gen, shrink_unit=unit)
 
+def fz_job(target, replay_bin, replay_flavour, tier, corpus=None, quick_s=20, max_len=512, shards=NCPU, unit=1):
+    t = quick_s * 30 if tier == 'thorough' else quick_s
+    return Job(target, 'fuzz', [], shards=shards, timeout=t + 600, kind='fuzz', replay_bin=replay_bin, replay_flavour=replay_flavour, fuzz_time=t, max_len=max_len, corpus=corpus,
+               label='libFuzzer ' + target, shrink_unit=unit)
+
 def decode_jobs(flavour, gens=('ast', 'deep')):
     def jobs(tier, seed):
-        return [Job('drv_decode', flavour, [], shards=NCPU, timeout=5400)] + [rc_job('drv_decode', flavour, g, tier, 5000, 80) for g in gens]
+        return ([Job('drv_decode', flavour, [], shards=NCPU, timeout=5400)] + [rc_job('drv_decode', flavour, g, tier, 5000, 80) for g in gens] +
+                [fz_job('fz_decode', 'drv_decode', flavour, tier, corpus='decode')])
     return jobs
 
 SPECS = {}
@@ -50,7 +56,8 @@ SPECS['C14'] = dict(
 
 def stream_jobs_for(gens):
     def jobs(tier, seed):
-        return [Job('drv_stream', 'asan', [], shards=NCPU, timeout=5400)] + [rc_job('drv_stream', 'asan', g, tier, 8000, 80) for g in gens]
+        return ([Job('drv_stream', 'asan', [], shards=NCPU, timeout=5400)] + [rc_job('drv_stream', 'asan', g, tier, 8000, 80) for g in gens] +
+                ([fz_job('fz_stream', 'drv_stream', 'asan', tier, corpus='stream', quick_s=15, max_len=256)] if gens else []))
     return jobs
 stream_jobs = stream_jobs_for(())
 
@@ -78,7 +85,8 @@ SPECS['C10'] = dict(
     level_note='cbor_encode_half is judged only on NaN and half-representable floats (its documented domain for exactness; totality on other floats is C15).')
 
 def tree_jobs(tier, seed):
-    return [Job('drv_tree', 'asan', [], shards=NCPU, timeout=5400), rc_job('drv_tree', 'asan', 'prog', tier, 4000, 80), rc_job('drv_tree', 'asan', 'astok', tier, 4000, 80, shards=4)]
+    return [Job('drv_tree', 'asan', [], shards=NCPU, timeout=5400), rc_job('drv_tree', 'asan', 'prog', tier, 4000, 80), rc_job('drv_tree', 'asan', 'astok', tier, 4000, 80, shards=4),
+            fz_job('fz_tree', 'drv_tree', 'asan', tier, quick_s=15, max_len=256)]
 
 TREE_ASSUME = [COMMON_ASSUME[0], 'the reference encoder (src/ref/refcbor.hpp encode, written from RFC 8949 and the rules stated in C03) is correct', COMMON_ASSUME[2],
                'UBSan nonnull-attribute is disabled in this flavour: memcpy(dst, NULL, 0) on handle-less definite strings is outside every listed property']
@@ -115,7 +123,8 @@ SPECS['C06'] = dict(
     level_note='Atomicity is judged on the byte image of every block live before the call, so it needs no knowledge of struct layout; scenarios with more than a few hundred requests are only sampled (thorough tier).')
 
 def hist_jobs(tier, seed):
-    return [Job('drv_hist', 'asan', [], shards=NCPU, timeout=5400, shrink_unit=4), rc_job('drv_hist', 'asan', 'hist', tier, 3000, 80, unit=4)]
+    return [Job('drv_hist', 'asan', [], shards=NCPU, timeout=5400, shrink_unit=4), rc_job('drv_hist', 'asan', 'hist', tier, 3000, 80, unit=4),
+            fz_job('fz_hist', 'drv_hist', 'asan', tier, quick_s=15, max_len=800, unit=4)]
 
 HIST_ASSUME = [COMMON_ASSUME[0], COMMON_ASSUME[2],
                'the ownership rules modelled are the documented ones (DESIGN.md Appendix B): containers hold one reference per slot; cbor_tag_set_item on an occupied tag leaves the old reference with the client; cbor_move gives a client reference to the callee; undefined uses (cycles, tag_item on an empty tag, double set_handle) are never generated']
